@@ -239,6 +239,23 @@ def validatorFields (v : ValidatorRec) : List Fld :=
 
 def encodeValidator (v : ValidatorRec) : Bytes := encodeStruct 1 (validatorFields v)
 
+/-- a signing-info record of x/pos as stored (`types.ValidatorSigningInfo`) -/
+structure SigningRec where
+  addr : Bytes
+  start : Int
+  offset : Int
+  secs : Int
+  nanos : Nat
+  tombstoned : Bool
+  missed : Int
+  deriving Repr, DecidableEq
+
+def signingFields (v : SigningRec) : List Fld :=
+  [.bytes v.addr, .uint (toU64 v.start), .uint (toU64 v.offset), .bytes (encodeTime v.secs v.nanos),
+   .uint (if v.tombstoned then 1 else 0), .uint (toU64 v.missed)]
+
+def encodeSigning (v : SigningRec) : Bytes := encodeStruct 1 (signingFields v)
+
 /-! ### store keys of x/pos -/
 
 /-- 8-byte big-endian -/
